@@ -486,3 +486,59 @@ Proof. split; vm_compute; reflexivity. Qed.
 Lemma refuted_F20j : guard_F04c [s_body] = true /\ guard_F20j [s_body] (Some s_body) = false
   /\ length (params [s_body] (Some s_body) []) = 1%nat.
 Proof. repeat split; vm_compute; reflexivity. Qed.
+
+(* ================================================================= validity of de-collided class names / module stems *)
+Lemma class_stem_of_class_name : forall n, is_ident (class_stem (class_name n)) = true.
+Proof.
+  intro n. destruct (class_name_cases n) as [E|E]; rewrite E.
+  - destruct (class_stem_spec (class_pre n)) as [H|[H _]].
+    + pose proof (class_pre_not_ends_us n) as Hn. rewrite H in Hn at 1. rewrite ends_us_snoc in Hn. discriminate.
+    + rewrite H. apply class_pre_ident.
+  - unfold class_stem. rewrite rev_app_distr. simpl. rewrite rev_involutive. apply class_pre_ident.
+Qed.
+
+Lemma cand_class_valid : forall n i, guard_F20a n = true -> valid_name (cand_class (class_name n) i) = true.
+Proof.
+  intros n [|i] G; cbn [cand_class]; [apply class_name_valid_partial, G|].
+  unfold valid_name. rewrite is_ident_app.
+  - rewrite not_kw_ends_digit; [reflexivity | apply last_digit_of_app_dec].
+  - apply class_stem_of_class_name.
+  - apply digits_ident_chars, dec_digits.
+Qed.
+
+(* F20a excluded (on the stored names): every class name and every module stem handed out is a valid name *)
+Theorem dedup_models_valid : forall raw,
+  forallb guard_F20a (map class_name raw) = true ->
+  Forall (fun x => valid_name (fst (snd x)) = true /\ valid_name (snd (snd x)) = true) (dedup_models raw).
+Proof.
+  intros raw G. unfold dedup_models. cbv zeta.
+  set (names := map class_name raw) in *.
+  set (sorted := isort name_leb (combine names (seq 0 (length names)))).
+  set (ns := map fst sorted).
+  set (cls := assign cand_class [] (map class_name ns)).
+  set (stems := assign cand_us2 [] (map module_name_tok ns)).
+  assert (Hns : forall n, In n ns -> In n names).
+  { intros n Hn. subst ns. apply in_map_iff in Hn. destruct Hn as [[n' i] [<- Hp]].
+    subst sorted. apply (Permutation_in _ (isort_perm name_leb _)) in Hp. apply in_combine_l in Hp. exact Hp. }
+  assert (Hc : Forall (fun c => valid_name c = true) cls).
+  { subst cls. rewrite Forall_forall. intros c Hc.
+    pose proof (assign_shape cand_class (map class_name ns) []) as Hs.
+    assert (Hex : exists b i, In b (map class_name ns) /\ c = cand_class b i).
+    { clear -Hs Hc. induction Hs as [|b x bs xs [i Hi] _ IH]; [destruct Hc|].
+      destruct Hc as [<-|Hc]; [exists b, i; split; [left; reflexivity | exact Hi]|].
+      destruct (IH Hc) as [b' [i' [Hb' Hc']]]. exists b', i'. split; [right; exact Hb' | exact Hc']. }
+    destruct Hex as [b [i [Hb ->]]]. apply in_map_iff in Hb. destruct Hb as [n [<- Hn]].
+    apply cand_class_valid. rewrite forallb_forall in G. apply G, Hns, Hn. }
+  assert (Hm : Forall (fun c => valid_name c = true) stems).
+  { subst stems.
+    eapply (Forall2_Forall_r _ (fun b => valid_name b = true)); [| |apply assign_shape].
+    - intros b x Hb [i ->]. apply cand_us2_valid, Hb.
+    - apply Forall_forall. intros b Hb. apply in_map_iff in Hb. destruct Hb as [n [<- Hn]].
+      apply Hns in Hn. subst names. apply in_map_iff in Hn. destruct Hn as [x [<- _]].
+      unfold module_name_tok. apply module_of_tokens_valid; [apply tokens_nonempty, class_name_has_alnum | apply tokens_good]. }
+  assert (Lc : length cls = length ns) by (subst cls; rewrite assign_length, map_length; reflexivity).
+  assert (Ls : length stems = length ns) by (subst stems; rewrite assign_length, map_length; reflexivity).
+  rewrite Forall_forall. intros [i [c m]] Hin. simpl.
+  apply in_combine_r in Hin. pose proof (in_combine_l _ _ _ _ Hin) as H1. pose proof (in_combine_r _ _ _ _ Hin) as H2.
+  rewrite Forall_forall in Hc, Hm. split; [apply Hc, H1 | apply Hm, H2].
+Qed.
